@@ -5,6 +5,7 @@ import (
 	"fmt"
 	"os"
 	"sort"
+	"strings"
 	"time"
 
 	"rcproxy/core"
@@ -297,14 +298,21 @@ func (w *Worker) apply(st *Stim) {
 		var b []byte
 		for _, r := range st.Reqs {
 			c.NSent++
-			w.Log.Add(Event{Ev: "send", C: c.Name, I: c.NSent, K: r.K, Slots: r.Slots, Dups: r.Dups})
+			ev := Event{Ev: "send", C: c.Name, I: c.NSent, K: r.K, Slots: r.Slots, Dups: r.Dups}
 			if st.Op == "send" {
-				b = append(b, w.Cl.Concrete(c.Name, c.NSent, r)...)
+				rb := w.Cl.Concrete(c.Name, c.NSent, r)
+				b = append(b, rb...)
+				ev.Size = len(rb)
+				if r.K == "cmd" && len(r.Args) > 0 {
+					ev.Txt = strings.ToLower(r.Args[0]) // the name as the (case-insensitive) table knows it
+					ev.Num = len(r.Args) - 1
+				}
 			}
+			w.Log.Add(ev)
 		}
 		if st.Op == "raw" {
 			b, _ = hex.DecodeString(st.Hex)
-			w.Log.Add(Event{Ev: "rawsend", C: c.Name, Raw: st.Hex})
+			w.Log.Add(Event{Ev: "rawsend", C: c.Name, Bytes: IntBytes(b)})
 		}
 		// a write cut into chunks: each chunk but the last is read by the proxy in an iteration of its own
 		prev := 0
